@@ -133,6 +133,10 @@ def check_frame(case):
         raise Fail("xyz2enu is not (e.v, n.v, u.v)", expected=wantl, observed=loc)
     if case.get("kind", "float") != "float":
         lo_, la_ = S.angle_obj(case["kind"], lon), S.angle_obj(case["kind"], lat)
+        b1 = gd.xyz2enu(la_, lo_, v[0], v[1], v[2])
+        b2 = gd.xyz2enu(S.obj_dec(la_), S.obj_dec(lo_), v[0], v[1], v[2])
+        if tuple(b1) != tuple(b2):
+            raise Fail("xyz2enu with angle objects differs from the call with their decimal values", expected=b2, observed=b1)
         a1 = gd.enu2xyz(la_, lo_, v[0], v[1], v[2])
         a2 = gd.enu2xyz(S.obj_dec(la_), S.obj_dec(lo_), v[0], v[1], v[2])
         if tuple(a1) != tuple(a2):
@@ -268,12 +272,6 @@ def check_table(case):
         if not abs(got - want) <= 0.5e-5 + 1e-9:
             raise Fail("tabulated 95 % coverage factor is not the two-sided Student-t quantile to five decimals",
                        expected=round(want, 5), observed={"dof": dof, "k": got})
-    for bad in (float(dof), str(dof)):
-        try:
-            stt.k_val95(bad)
-        except TypeError:
-            continue
-        raise Fail("k_val95 accepted a non-integer degree of freedom", expected="TypeError", observed=repr(bad))
 
 
 def enumerate_table(tier, seed, shard, nshards):
@@ -320,7 +318,19 @@ def relative_cases(draw):
         T3 = np.array(draw(tie_matrices()))
         return {"lat": draw(st.sampled_from([0.0, 90.0, -90.0, 45.0])), "lon": draw(st.sampled_from([0.0, 90.0, 180.0, -90.0])),
                 "var1": T3.tolist(), "var2": (T3 * draw(st.sampled_from([0.0, 1.0, 2.0]))).tolist(), "cov12": [[0.0] * 3] * 3}
-    return {"lat": draw(lat_s), "lon": draw(lon_s), "var1": J[:3, :3].tolist(), "var2": J[3:, 3:].tolist(), "cov12": J[:3, 3:].tolist()}
+    lat, lon = draw(lat_s), draw(lon_s)
+    if draw(st.integers(0, 5)) == 0:
+        # fully correlated stations (rank-1 joint covariance) whose difference lies along one local axis: the relative
+        # covariance is singular, and its up (or a horizontal) variance is exactly zero up to rounding of either sign
+        e, n, u = _frame(lat, lon)
+        b2 = np.array([TR.unit(draw) for _ in range(3)]) * 0.02
+        axis = draw(st.sampled_from(["e", "n", "en", "u", "same"]))
+        d = {"e": e, "n": n, "en": e * TR.unit(draw) + n * TR.unit(draw), "u": u, "same": 0.0 * e}[axis]
+        b1 = b2 + 0.01 * draw(S.floats(0.1, 1.0)) * d
+        sc = draw(st.sampled_from([1.0, 1e-2, 1e-4]))
+        return {"lat": lat, "lon": lon, "var1": (np.outer(b1, b1) * sc).tolist(), "var2": (np.outer(b2, b2) * sc).tolist(),
+                "cov12": (np.outer(b1, b2) * sc).tolist(), "corr": axis}
+    return {"lat": lat, "lon": lon, "var1": J[:3, :3].tolist(), "var2": J[3:, 3:].tolist(), "cov12": J[:3, 3:].tolist()}
 
 
 def _nt_rot(case):
